@@ -386,6 +386,14 @@ func (w *World) Run(syms *SymbolTable) error {
 					}
 				}
 
+				// Run has returned (time limit) while the last rule was being applied: the world
+				// is the caller's again, an abandoned evaluation must not write to it any more
+				select {
+				case <-ctx.Done():
+					return
+				default:
+				}
+
 				prevCount := len(*w.facts)
 				w.facts.InsertAll([]Fact(newFacts))
 
